@@ -13,7 +13,7 @@ EXPLANATION = ('Static rules: L1 serialisation by typing — Observer::next take
                '(no cell is acquired while a guard of the same class or of a class that is ordered after it is held), (b) calls that leave '
                'the library upstream or into user code (subscribe, unsubscribe of a foreign subscription, stored or user closures, polling a '
                'user future) happen under a library lock only at the tabled sites; downstream observer calls only ever descend the pipeline; '
-               'L6 no panic from paired cells: where a reader unwraps cell B under the guard of cell A (A non-empty promises B non-empty), every writer empties A before B; L7 the first-subscriber hand-over of share() is one critical section (same rule as C11.P-b); L4 no lost wake-up (same rules as C14.R3/R4); L5 merge_all takes its slot decision and acts on it in one critical section (same rule as C05.F3). Together: no deadlock among library locks for callers that do not re-enter '
+               'L6 no panic from paired cells: where a reader unwraps cell B under the guard of cell A (A non-empty promises B non-empty), every writer empties A before B; L8 a notification handler of an observer that IS a shared state cell (merge, zip, combine_latest) enters that cell once: deciding on the shared state and acting on the decision happen in one critical section (two threads completing the two inputs at once must not both see themselves as the first one); L7 the first-subscriber hand-over of share() is one critical section (same rule as C11.P-b); L4 no lost wake-up (same rules as C14.R3/R4); L5 merge_all takes its slot decision and acts on it in one critical section (same rule as C05.F3). Together: no deadlock among library locks for callers that do not re-enter '
                'from a callback. Does not decide value-dependent panics, fairness or preemption-level schedules.')
 ASSUMPTIONS = ['callers do not re-enter the same pipeline from inside a callback (the property\'s own proviso)',
                'std::sync::Mutex and RefCell are not re-entrant; guards are released at the MIR drop of the guard local']
@@ -39,6 +39,7 @@ FOREIGN_UNDER_LOCK = {
     ('<scheduler::TaskHandle as Subscription>::unsubscribe', 'unsubscribe'): 'unsubscribes the subscription the task produced',
 }
 CONTROLS = [
+    'L8|<rc::MutArc<verif_controls::SplitFlag<O>> as Observer>::complete',
     'L6|<verif_controls::CtlPairedCells>::close|back',
     'L3a|cycle CtlAbBa',
     'L3b|<verif_controls::LockedFlatten as Observer>::next|subscribe',
@@ -136,6 +137,31 @@ def _cycles(edges):
     return cyc
 
 
+def _l3a_findings(edges, n_fns, n_acq):
+    res = []
+    cyc = _cycles(edges)
+    if cyc:
+        for c in cyc[:5]:
+            where = edges.get((c[0], c[1]), [('?', '?')])[0]
+            res.append(Finding(ID, 'L3a', 'cycle ' + ' -> '.join(c), False,
+                               'lock-order cycle among library cells: two threads taking them in opposite orders deadlock (RefCell: BorrowMutError on re-entry)', where[1], [where[0]]))
+    else:
+        res.append(Finding(ID, 'L3a', 'lock-order graph', True, 'acyclic: %d cell classes, %d order edges (%d to DOWN), from %d functions / %d guard acquisitions' % (
+            len({x for e in edges for x in e if x != 'DOWN'}), len(edges), len([e for e in edges if e[1] == 'DOWN']), n_fns, n_acq)))
+    for (a, b), sites in sorted(edges.items()):
+        if b != 'DOWN':
+            res.append(Finding(ID, 'L3a', 'edge %s -> %s' % (a, b), True, 'taken in this order in %d function(s), e.g. %s' % (len({s[0] for s in sites}), sites[0][0]), sites[0][1]))
+    if n_acq < 150:
+        res.append(Finding(ID, 'L3a', 'floor', False, 'only %d guard acquisitions analysed, expected >= 150' % n_acq))
+    return res
+
+
+def l3a(cx):
+    """the lock-order findings alone (used by C06.J10)"""
+    edges, foreign, n_fns, n_acq = lock_graph(cx)
+    return _l3a_findings(edges, n_fns, n_acq)
+
+
 def check(cx):
     F = cx.facts
     res = []
@@ -148,6 +174,7 @@ def check(cx):
             if 'verif_controls' in label:
                 res.append(Finding(ID, 'L3b', '%s|%s' % (label, kind), False, 'foreign call under lock %s' % c, loc, [desc]))
         res += l6(cx)
+        res += l8(cx)
         return res
     # L1
     tr = F.traits.get('observer::Observer')
@@ -169,21 +196,7 @@ def check(cx):
     for f in c06.check(cx):
         if f.rule == 'J1' and 'SubjectThreads' in f.key:
             res.append(Finding(ID, 'L2', f.key, f.ok, f.msg, f.loc, f.witness))
-    # L3a
-    cyc = _cycles(edges)
-    if cyc:
-        for c in cyc[:5]:
-            where = edges.get((c[0], c[1]), [('?', '?')])[0]
-            res.append(Finding(ID, 'L3a', 'cycle ' + ' -> '.join(c), False,
-                               'lock-order cycle among library cells: two threads taking them in opposite orders deadlock (RefCell: BorrowMutError on re-entry)', where[1], [where[0]]))
-    else:
-        res.append(Finding(ID, 'L3a', 'lock-order graph', True, 'acyclic: %d cell classes, %d order edges (%d to DOWN), from %d functions / %d guard acquisitions' % (
-            len({x for e in edges for x in e if x != 'DOWN'}), len(edges), len([e for e in edges if e[1] == 'DOWN']), n_fns, n_acq)))
-    for (a, b), sites in sorted(edges.items()):
-        if b != 'DOWN':
-            res.append(Finding(ID, 'L3a', 'edge %s -> %s' % (a, b), True, 'taken in this order in %d function(s), e.g. %s' % (len({s[0] for s in sites}), sites[0][0]), sites[0][1]))
-    if n_acq < 150:
-        res.append(Finding(ID, 'L3a', 'floor', False, 'only %d guard acquisitions analysed, expected >= 150' % n_acq))
+    res += _l3a_findings(edges, n_fns, n_acq)
     # L3b
     for key, (loc, desc, c) in sorted(foreign.items()):
         label, kind = key
@@ -205,6 +218,7 @@ def check(cx):
     from . import c05
     res += c05.f3(cx, ID, 'L5')
     res += l6(cx)
+    res += l8(cx)
     # L4
     for f in c14.r3(cx) + c14.r4(cx):
         res.append(Finding(ID, 'L4', f.key, f.ok, f.msg, f.loc, f.witness))
@@ -223,6 +237,42 @@ def _cell_take(n, field=None):
         if root[0] == 'arg' and root[1] == 1 and len(steps) >= 2 and steps[-1] == '@' and r[0] == 'agg' and r[2].endswith('Option::None'):
             return '.'.join(steps[:-1])
     return None
+
+
+def l8(cx):
+    """one critical section per notification for observers implemented on the shared cell itself"""
+    from ..core import explore, ret_states, witness, interesting_default
+    F = cx.facts
+    res = []
+    n = 0
+    for im in cx.observer_impls():
+        tag = roles.impl_tag(cx, im)
+        if not tag.startswith(('MutRc<', 'MutArc<')) or tag.startswith(('MutRc<Option<', 'MutArc<Option<')):
+            continue
+        if cx.control != ('verif_controls' in tag):
+            continue
+        for meth in ('next', 'error', 'complete'):
+            fn = cx.method(im, meth)
+            if fn is None:
+                continue
+            n += 1
+            g = cx.graph(fn['key'])
+
+            def step(st, x, lab):
+                gd = guard_of(x)
+                if gd and not x['ctx']:
+                    root, steps = access_path(gd[0])
+                    if root[0] == 'arg' and root[1] == 1 and steps == ['@']:
+                        return min(st + 1, 3)
+                return st
+            reached, pred = explore(g, 0, step)
+            bad = [k for k in ret_states(g, reached) if k[1] > 1]
+            res.append(Finding(ID, 'L8', cx.label(fn), not bad,
+                               '%s() enters the shared state cell %d times on one path: the state it decided on can change between the two critical sections (e.g. both inputs completing at once both see "first completion", and the downstream is never completed)' % (meth, bad[0][1])
+                               if bad else 'one critical section per notification', fn['span'], witness(g, pred, bad[0], interesting_default) if bad else None))
+    if not cx.control and n < 18:
+        res.append(Finding(ID, 'L8', 'floor', False, 'expected the shared-cell observers of merge/zip/combine_latest (6 impls x 3 methods), found %d methods' % n))
+    return res
 
 
 def l6(cx):
